@@ -31,9 +31,20 @@ def importCells : Bytes → Nat → Res (List Int)
     | .abort => .abort
   | _, _ + 1 => .oob
 
-/-- `mapping_matrix_get_size(rows, cols) != 0` (src/mapping_matrix.c:40-56). -/
-def matrixSizeNonzero (rows cols : Int) : Bool :=
-  !(decide (rows > 255) || decide (cols > 255)) && !(decide (rows * cols * 2 > 65004))
+/-- `align(i)` (src/opus_private.h:194-203) in the verified build configuration (x86-64: the alignment
+    `offsetof(struct foo, u)` is 8): the sum and the division are done in `unsigned int`, the result is
+    converted back to `int` — which matters only for the negative sizes nonsensical arguments produce. -/
+def alignI (i : Int) : Int :=
+  let u := (((i + 7) % 4294967296) / 8 * 8) % 4294967296
+  if u ≥ 2147483648 then u - 4294967296 else u
+
+/-- `mapping_matrix_get_size(rows, cols)` (src/mapping_matrix.c:40-56); `sizeof(MappingMatrix) = 12`. -/
+def matrixGetSize (rows cols : Int) : Int :=
+  if rows > 255 ∨ cols > 255 then 0
+  else if rows * cols * 2 > 65004 then 0
+  else alignI 12 + alignI (rows * cols * 2)
+
+def matrixSizeNonzero (rows cols : Int) : Bool := decide (matrixGetSize rows cols ≠ 0)
 
 /-- State a successful `opus_projection_decoder_init` leaves behind. -/
 structure ProjDecoder where
